@@ -284,13 +284,28 @@ Fixpoint final_bindings (l : list (string * origin)) : list (string * origin) :=
   end.
 
 (* ---------- plain-name lookup (ast_name, Load context) ---------- *)
+(* deviations of the current code from the property (switch on = what the code does today; all off = conformant) *)
+Record deviations := {
+  d_native_builtins : bool;   (* D170: lambda bodies and @pyscript_compile/@pyscript_executor functions are compiled natively
+                                 (ast_lambda l.1204, ast_functiondef l.1125-1161: exec(code, global_sym_table, sym_table)) and
+                                 therefore see Python's real builtins: no BUILTIN_EXCLUDE, no underscore rule, real __import__ *)
+  d_builtins_leak : bool      (* D171: that exec() inserts "__builtins__" into the script's global table, where interpreted
+                                 code then finds it as an ordinary global *)
+}.
+Definition dev_off : deviations := {| d_native_builtins := false; d_builtins_leak := false |}.
+
 Record nenv := {
   ne_sym : bool;        (* bound in the current symbol table (module level: the global table) *)
   ne_global : bool;     (* bound in the global table while a function's table is current *)
   ne_local : bool;      (* the evaluator's local table still holds the functions installed by install_ast_funcs;
                            false inside trigger string expressions: AstEval.eval(new_state_vars) REPLACES that table
                            by the trigger variables *)
-  ne_pybuiltin : bool   (* hasattr(builtins, name) *)
+  ne_pybuiltin : bool;  (* hasattr(builtins, name) *)
+  ne_gdecl : bool;      (* the enclosing function declares the name `global` (curr_func.global_names) *)
+  ne_unbound : bool;    (* the current table holds a cell (EvalLocalVar) for the name that is unset (deleted) *)
+  ne_localname : bool;  (* the name is a local of the current function (curr_func.local_names) but absent from its table *)
+  ne_native : bool;     (* the name is read inside a natively compiled body (lambda, @pyscript_compile) *)
+  ne_leaked : bool      (* a native body was compiled in this global context before *)
 }.
 Inductive nkind :=
   | KUser               (* the script's own binding *)
@@ -298,17 +313,30 @@ Inductive nkind :=
   | KAstFunc            (* another function installed by install_ast_funcs *)
   | KFactory            (* pyscript's own eval/exec/globals/locals *)
   | KBuiltin            (* getattr(builtins, name): the real builtin *)
+  | KBuiltinsNs         (* the real builtins namespace itself (builtins.__dict__) *)
   | KUndefined          (* none of these (a function/service/state name or NameError) *)
-  | KOther.
+  | KOther.             (* another exception (UnboundLocalError, SyntaxError of an unresolvable nonlocal) *)
 
-Definition name_lookup (e : nenv) (n : string) : nkind :=
-  if ne_sym e then KUser
+(* AstEval.ast_name, Load context, l.1527-1562 *)
+Definition interp_lookup (cfg : deviations) (e : nenv) (n : string) : nkind :=
+  if ne_gdecl e then (if ne_global e then KUser else KUndefined)     (* global declaration: only the global table *)
+  else if ne_unbound e then KUndefined                                 (* EvalLocalVar.get() of an unset cell *)
+  else if ne_sym e then KUser
   else match (if ne_local e then assoc n logger_funcs else None) with
        | Some lvl => KLogger lvl                      (* local_sym_table, installed per evaluator *)
        | None =>
          if ne_local e && str_mem n other_ast_funcs then KAstFunc
-         else if ne_global e then KUser
+         else if ne_global e then (if ne_localname e then KOther else KUser)    (* UnboundLocalError *)
+         else if d_builtins_leak cfg && ne_leaked e && String.eqb n "__builtins__" then KBuiltinsNs
          else if str_mem n ast_factory_funcs then KFactory
          else if ne_pybuiltin e && negb (str_mem n builtin_exclude) && negb (starts_underscore n) then KBuiltin
          else KUndefined
        end.
+
+Definition name_lookup (cfg : deviations) (e : nenv) (n : string) : nkind :=
+  if ne_native e && d_native_builtins cfg then
+    (* CPython's LOAD_GLOBAL: the script's global table, then the builtins module *)
+    if ne_sym e || ne_global e then KUser
+    else if String.eqb n "__builtins__" then KBuiltinsNs
+    else if ne_pybuiltin e then KBuiltin else KUndefined
+  else interp_lookup cfg e n.
